@@ -376,6 +376,55 @@ def run(facts, rep, tier):
                         "order-sensitive (%s): output or diagnostics can differ between two runs on the same input"
                         % (t["f"].get("self", "a hash container")[:90], how), file=f.file, line=t.get("ln"), fn=p))
 
+    # implicit iteration: a hash container handed to `extend` / `from_iter` is walked in hash order by the callee
+    for p in sorted(clo):
+        f = F.fns[p]
+        per = 0
+        for bi, t in f.calls():
+            g = callee_generic(t) or ""
+            last = g.split("::")[-1].split("<")[0]
+            if last not in ("extend", "from_iter"):
+                continue
+            tys = [f.local_ty(op_place(o)["l"]) if op_place(o) is not None else "" for o in t["args"]]
+            src = [ty for ty in tys[(1 if last == "extend" else 0):] if "HashSet<" in ty or "HashMap<" in ty]
+            if not src:
+                continue
+            per += 1
+            key = "%s|%s-from-hash#%d" % (fn_short(p), last, per)
+            recv = tys[0] if last == "extend" else t["f"].get("self", "")
+            unordered_sink = any(k in recv for k in ("HashMap<", "HashSet<", "BTreeMap<", "BTreeSet<"))
+            sorted_after = False
+            if not unordered_sink and last == "extend" and op_place(t["args"][0]) is not None:
+                root = op_place(t["args"][0])["l"]
+                d = f.single_def(root)
+                if d and d[2] == "assign" and d[3]["r"] in ("ref", "cfd"):
+                    root = d[3]["p"]["l"]
+                for b2, t2 in f.calls():
+                    if (callee_generic(t2) or "").split("::")[-1] in SORTS and b2 in f.reachable(bi) and t2["args"]:
+                        pl2 = op_place(t2["args"][0])
+                        r2 = pl2["l"] if pl2 is not None else None
+                        for _ in range(3):
+                            d2 = f.single_def(r2) if r2 is not None else None
+                            if d2 and d2[2] == "assign" and d2[3]["r"] in ("ref", "cfd"):
+                                r2 = d2[3]["p"]["l"]
+                            elif d2 and d2[2] == "call" and d2[3]["args"] and op_place(d2[3]["args"][0]) is not None:
+                                r2 = op_place(d2[3]["args"][0])["l"]
+                            else:
+                                break
+                        if r2 == root:
+                            sorted_after = True
+            ok = unordered_sink or sorted_after
+            rep.oblige("HASHORDER", key, ok, sample={"rule": "HASHORDER", "site": key, "file": f.file,
+                                                     "line": t.get("ln"), "receiver": recv[:60],
+                                                     "verdict": "order-insensitive sink" if unordered_sink else
+                                                     ("sorted afterwards" if sorted_after else "unsorted")})
+            if not ok:
+                rep.add(Finding("HASHORDER", "HASHORDER|%s" % key,
+                                "%s appends the elements of a hash container (%s) to an ordered sequence: their order "
+                                "is per-process hash order, and everything that depends on the sequence's order "
+                                "(first error reported, later entry wins) differs between runs"
+                                % (fn_short(p), src[0][:70]), file=f.file, line=t.get("ln"), fn=p))
+
     # NONDET
     n_nd = 0
     for p in sorted(clo):
